@@ -508,6 +508,11 @@ def _small_c16(tier, seed, shard=(0, 1)):
     twin = {"partitions": [{"volumes": [_vol("DRUMS", [_sample("SNARE-", 40, 61), _sample("A..", 30, 62)])]},
                            {"volumes": [_vol("SNARE-", [_sample("HAT", 20, 63)]), _vol("A..", [_sample("B", 10, 64)])]}]}
     images.append({"kind": "akai", "model": twin, "paths": ["", "A:", "B:", "B:/SNARE-", "A:/DRUMS"]})
+    # a sample with active loops (its loop table is read by `ls` of the sample AND by every export) and an L/R pair (merged anew by every export)
+    loopy = {"partitions": [{"volumes": [_vol("V", [
+        _sample("LOOPY", 400, 81, loops=[{"at": 100, "fine": 0, "coarse": 50, "duration": 9999}, {"at": 300, "fine": 7, "coarse": 20, "duration": 500}]),
+        _sample("PAD -L", 300, 82), _sample("PAD -R", 300, 83), _sample("PLAIN", 64, 84)])]}]}
+    images.append({"kind": "akai", "model": loopy, "paths": ["A:/V", "A:/V/LOOPY", "A:/V/PAD -L"]})
     if shard[0] == 0:
         other = {"partitions": [{"volumes": [_vol("OTHER", [_sample("ZAP", 33, 71), _sample("ZIP", 12, 72)])]}]}
         for first_ops in ([["ls", ""]], [["export"]], [["ls", "A:/VOL A"], ["ls", ""]]):
